@@ -33,7 +33,7 @@ def generate(rng, run, tier):
         plan["kind"] = "grouped"
         return plan
     if rng.random() < 0.6:
-        plan = c01.generate(rng, run, tier)
+        plan = c01.gen_plan(rng, run, tier)
     else:
         plan = c02.generate(rng, run, tier)
     cfg = plan["cfg"]
